@@ -2,6 +2,7 @@ package checks
 
 import (
 	"bytes"
+	"context"
 	"encoding/csv"
 	"encoding/json"
 	"errors"
@@ -233,8 +234,17 @@ type fakeRT struct {
 	body   string
 }
 
-func (f *fakeRT) RoundTrip(*http.Request) (*http.Response, error) {
-	return &http.Response{StatusCode: f.status, Status: fmt.Sprintf("%d %s", f.status, http.StatusText(f.status)), Body: io.NopCloser(strings.NewReader(f.body)), Header: http.Header{}}, nil
+// RoundTrip answers with the canned status and body. Time is not modelled by counting seconds: if the request carries a
+// time limit at all (a context deadline, or the cancel channel http.Client arms for its Timeout), the limit may expire at
+// any moment the consumer of the body chooses to be slow - here in the middle of the body, which then fails like a timed
+// out read does. A client without a time limit gets the whole body.
+func (f *fakeRT) RoundTrip(req *http.Request) (*http.Response, error) {
+	var body io.Reader = strings.NewReader(f.body)
+	_, hasDeadline := req.Context().Deadline()
+	if hasDeadline || req.Cancel != nil { //nolint:staticcheck // the deprecated field is exactly what http.Client.Timeout uses with custom transports
+		body = &failAfter{data: []byte(f.body), n: len(f.body) / 2, err: context.DeadlineExceeded}
+	}
+	return &http.Response{StatusCode: f.status, Status: fmt.Sprintf("%d %s", f.status, http.StatusText(f.status)), Body: io.NopCloser(body), Header: http.Header{}, Request: req}, nil
 }
 
 func jsonTokenUnit(c *core.Ctx, first int, maxLen int) {
